@@ -37,6 +37,44 @@ pub fn fresh_host() -> Option<AnalysisHost> {
     })
 }
 
+/// The current workspace with one more module in its first root.  Returns the change a server sends for a new file of a
+/// known package (file content and source roots; the package graph is NOT set again) and a fresh host holding the grown
+/// workspace in which file `file` has the text `text0`.
+pub fn grow(extra_path: &str, extra_text: &str, file: u32, text0: &str) -> Option<(Change, AnalysisHost)> {
+    WS.with(|w| {
+        let mut w = w.borrow_mut();
+        let new_id = w.files.len() as u32;
+        let mut ch = Change::default();
+        ch.change_file(FileId(new_id), extra_text.into());
+        let mut roots = Vec::new();
+        for (k, (path, files)) in w.roots.iter().enumerate() {
+            let mut set = FileSet::default();
+            for f in files {
+                set.insert(FileId(*f), VfsPath::new(&w.files[*f as usize].0));
+            }
+            if k == 0 {
+                set.insert(FileId(new_id), VfsPath::new(extra_path));
+            }
+            roots.push(SourceRoot::new(set, PathBuf::from(path)));
+        }
+        ch.set_roots(roots);
+        let (keep_files, keep_roots, keep_host) = (w.files.clone(), w.roots.clone(), w.host.take());
+        w.files.push((extra_path.to_string(), extra_text.to_string()));
+        if let Some(f0) = w.files.get_mut(file as usize) {
+            f0.1 = text0.to_string();
+        }
+        if let Some(r0) = w.roots.get_mut(0) {
+            r0.1.push(new_id);
+        }
+        build(&mut w);
+        let fresh = w.host.take();
+        w.files = keep_files;
+        w.roots = keep_roots;
+        w.host = keep_host;
+        fresh.map(|f| (ch, f))
+    })
+}
+
 fn build(ws: &mut Ws) {
     let mut change = Change::default();
     for (i, (_, text)) in ws.files.iter().enumerate() {
